@@ -4,6 +4,7 @@ package clos
 
 import (
 	"github.com/ohler55/slip"
+	"github.com/ohler55/slip/pkg/cl"
 )
 
 func defWithSlots() {
@@ -92,6 +93,10 @@ func (f *WithSlots) Call(s *slip.Scope, args slip.List, depth int) (result slip.
 	}
 	for i := 2; i < len(args); i++ {
 		result = slip.EvalArg(ns, args, i, d2)
+		switch result.(type) {
+		case *slip.ReturnResult, *cl.GoTo:
+			return // pass a return-from, return or go on to its target
+		}
 	}
 	return
 }
